@@ -2626,17 +2626,6 @@ def transform_compressible(items, constants, labels):
             return imm != value
         return inner
 
-    # for rules that drop the immediate entirely: labels may still move after
-    # this pass, so the value only counts if it doesn't depend on any label
-    def ImmEqualsFinal(value):
-        def inner(i, p, e):
-            try:
-                imm = i.imm.eval(p, constants, i.line)
-            except AssemblerError:
-                return False
-            return imm == value
-        return inner
-
     def ImmDivisibleBy(value):
         def inner(i, p, e):
             imm = i.imm.eval(p, e, i.line)
@@ -2690,7 +2679,7 @@ def transform_compressible(items, constants, labels):
             NameEquals('addi'),
             RegEquals('rd', 0),
             RegEquals('rs1', 0),
-            ImmEqualsFinal(0),
+            ImmEquals(0),
         ],
         'c.addi': [
             NameEquals('addi'),
@@ -2818,7 +2807,7 @@ def transform_compressible(items, constants, labels):
             NotAuipcJump(),
             RegEquals('rd', 0),
             RegNotEquals('rs1', 0),
-            ImmEqualsFinal(0),
+            ImmEquals(0),
         ],
         'c.mv': [
             NameEquals('add'),
@@ -2830,7 +2819,7 @@ def transform_compressible(items, constants, labels):
             NameEquals('addi'),
             RegNotEquals('rd', 0),
             RegNotEquals('rs1', 0),
-            ImmEqualsFinal(0),
+            ImmEquals(0),
         ],
         'c.ebreak': [
             NameEquals('ebreak'),
@@ -2847,7 +2836,7 @@ def transform_compressible(items, constants, labels):
             NotAuipcJump(),
             RegEquals('rd', 1),
             RegNotEquals('rs1', 0),
-            ImmEqualsFinal(0),
+            ImmEquals(0),
         ],
         'c.swsp': [
             NameEquals('sw'),
@@ -2872,7 +2861,19 @@ def transform_compressible(items, constants, labels):
         # check if any set of criteria is all true for this item
         compressed = None
         for name, preds in criteria.items():
-            if all(pred(item, position, env) for pred in preds):
+            # labels still shrink while instructions get compressed, so only
+            # pc-relative jumps / branches (whose targets just get closer) may
+            # be judged on them: any other immediate has to be label-free
+            if name in ['c.j', 'c.jal', 'c.beqz', 'c.bnez']:
+                pred_env = env
+            else:
+                pred_env = constants
+            try:
+                matches = all(pred(item, position, pred_env) for pred in preds)
+            except AssemblerError:
+                # immediate can't be evaluated (yet): leave the inst alone
+                matches = False
+            if matches:
                 compressed = name
                 break
 
